@@ -182,6 +182,13 @@ func c06Build(cs c06Case) c06Built {
 	case "missing-layout":
 		delete(b.tree.Files, layName+ext)
 		b.loadErr = []string{layName + ext}
+	case "nested-duplicate-insert": // the second insert of the name sits inside the block of the first
+		b.tree.Files["index"+ext] = `@use("` + useName + `")@insert("a")x@insert("a")y@end z@end`
+		b.loadErr = []string{"'a'"}
+	case "use-inside-insert": // not a layout that uses a layout, but it must not run away either
+		b.tree.Files["index"+ext] = `@use("` + useName + `")@insert("a")x@use("` + useName + `")y@end`
+		b.loadErr = []string{"use", "insert", "'a'"}
+		b.anyPhase = true
 	case "layout-uses-layout":
 		b.tree.Files[layName+ext] = `@use("base")` + printFile(lay)
 		b.tree.Files["base"+ext] = "BASE"
@@ -347,7 +354,7 @@ func c06Run(c *Ctx) {
 	}
 	// fault cases
 	if c.Mine() {
-		for _, sp := range []string{"duplicate-insert", "missing-layout", "layout-uses-layout"} {
+		for _, sp := range []string{"duplicate-insert", "missing-layout", "layout-uses-layout", "nested-duplicate-insert", "use-inside-insert"} {
 			for ia := 1; ia < c06InsForms; ia++ {
 				for _, uf := range []int{0, 1} {
 					for _, cfg := range []int{0, 1} {
